@@ -382,10 +382,10 @@ def jobs(tier):
         for lo in range(0, nk, chunk):
             out.append(dict(scn=scn, ks=list(range(lo, min(lo + chunk, nk))), slips=True))
     # second deviation: the stop instant combined with one reordered / stalled server request
-    if tier == "thorough":
-        for kind in ("redis", "amqp"):
-            for actor in ("long", "fail_retry", "recurring"):
-                for g in (0.0, 0.02):
+    for kind in ("redis", "amqp"):
+        for actor in ("long", "fail_retry", "recurring") if tier == "thorough" else ("long",):
+            for g in (0.0, 0.02) if tier == "thorough" else (0.0,):
+                if True:
                     scn = dict(kind=kind, g=g, actor=actor, load=3, stop="signal", server_choices=True)
                     base = execute(scn, None)
                     for k in range(0, base["iters"]):
